@@ -376,6 +376,41 @@ Definition ref_apply (r : ref) (e : event) : ref := ref_cmd (ref_tag r e) e.
 Definition ref_step (r : ref) (e : event) : ref := ref_gc (ref_apply r e).
 Definition ref_run (h : list event) : ref := fold_left ref_step h ref_init.
 
+(* ref_cmd does not record again what a message merely repeats about a user we already know
+   (the ident/host in a JOIN prefix or a userhost-in-names entry, the "*" of an extended JOIN,
+   the account tag of a JOIN). `told_step` does: it is the literal reading, and what the
+   theorems are stated with; on conformant messages the two agree (Proofs/ToldEq.v). *)
+Definition tell_identity (r : ref) (src : source) : ref :=
+  upd_user r (s_name src) (fun u => ru_set_ident_host u (s_ident src) (s_host src)).
+
+Definition told_join (r : ref) (src : source) (chan : str) (rest : list str) : ref :=
+  let r1 := tell_identity (ref_join r src chan rest) src in
+  match rest with
+  | acct :: _ => if streqb acct [42] then upd_user r1 (s_name src) (fun u => ru_set_account u []) else r1
+  | [] => r1
+  end.
+
+Definition told_names_entry (chan : str) (r : ref) (entry : str) : ref :=
+  let r1 := ref_names_entry chan r entry in
+  let body := snd (span_syms entry) in
+  if memb 33 body then tell_identity r1 (entry_source body) else r1.
+
+Definition told_names (r : ref) (chan names : str) : ref :=
+  if tracked_chan r chan then fold_left (told_names_entry chan) (split_byte 32 names) r else r.
+
+Definition told_cmd (r : ref) (e : event) : ref :=
+  if cmdb e c_JOIN then
+    match e_src e, e_params e with Some src, chan :: rest => told_join r src chan rest | _, _ => r end
+  else if cmdb e c_353 then
+    match e_params e with _ :: _ :: chan :: _ => told_names r chan (last_of e) | _ => r end
+  else ref_cmd r e.
+
+Definition told_apply (r : ref) (e : event) : ref :=
+  let r1 := told_cmd (ref_tag r e) e in
+  if cmdb e c_JOIN then ref_tag r1 e else r1.      (* the tag of a JOIN also describes the new member *)
+Definition told_step (r : ref) (e : event) : ref := ref_gc (told_apply r e).
+Definition told_run (h : list event) : ref := fold_left told_step h ref_init.
+
 (* ---------- what a correct server may send ---------- *)
 
 Definition this_server_text : str := Eval vm_compute in bs "this server".
@@ -447,13 +482,20 @@ Definition ok_hopreal (s : str) : bool :=
       end
   end.
 
-(* an account tag tells the account of a sender we track; about anybody else it says nothing
-   we keep (users sharing no channel are not tracked) -- except on the JOIN that makes the
-   sender tracked, where extended-join carries the same account as a parameter *)
+(* an account tag names the account of its sender ("*" is not an account name). On a JOIN it
+   agrees with the extended-join account parameter when there is one; without extended-join
+   the tag of somebody we do not track yet would be all we ever hear of the account, which
+   account-tag without extended-join does not promise to repeat: there the sender is known *)
 Definition tag_ok (r : ref) (e : event) : bool :=
   match e_src e, e_account_tag e with
   | Some src, Some a =>
-      tracked_user r (s_name src) || negb (cmdb e c_JOIN) || streqb (nth_param e 1) a
+      negb (streqb a [42]) &&
+      (if cmdb e c_JOIN then
+         match e_params e with
+         | _ :: acct :: _ => streqb acct a
+         | _ => tracked_user r (s_name src)
+         end
+       else true)
   | None, Some _ => false
   | _, None => true
   end.
